@@ -755,7 +755,7 @@ func boundary(g *gen) {
 	g.cse("b", "vote -1 0 2 1 10", "vote 1 -1 2 1 10", "vote 1 -1 2 1 10", "vote 1 -1 2 2 10", "crash", "vote 1 -1 2 2 10", "vote 1 0 2 1 1")
 	g.cse("b", "vote 9223372036854775807 9223372036854775807 3 1 2147483647", "vote 9223372036854775807 9223372036854775807 3 1 0", "vote 9223372036854775807 9223372036854775807 3 4294967295 0", "crash", "prop 9223372036854775807 9223372036854775807 1 1")
 	g.cse("b", "vote -9223372036854775808 -9223372036854775808 2 1 1", "prop 0 -9223372036854775808 1 1", "prop 0 0 1 1")
-	// save failures: error returned, memory ahead of disk
+	// save failures: error returned, memory rolled back (fd7d3fbcc7), request object keeps the signature
 	g.cse("b", "vote 1 0 2 1 10", "failsave on", "vote 1 0 3 1 10", "vote 1 0 2 1 10", "crash", "failsave off", "vote 1 0 3 2 10")
 	g.cse("b", "failsave open", "vote 2 0 2 1 10", "crash", "vote 2 0 2 5 10", "failsave off", "vote 2 0 2 5 10", "vote 2 0 2 5 11")
 	g.cse("b", "failsave on", "prop 3 1 1 10", "failsave off", "crash", "prop 3 1 2 10", "prop 3 1 2 11", "prop 3 1 1 10")
